@@ -12,6 +12,7 @@ from yaml.events import (
         AliasEvent, DocumentEndEvent, MappingEndEvent, MappingStartEvent,
         ScalarEvent, SequenceEndEvent, SequenceStartEvent)
 
+from yatiml.helpers import _int_to_yaml
 from yatiml.representers import (EnumRepresenter, Representer,
                                  PathRepresenter, UserStringRepresenter)
 from yatiml.util import is_string_like, yaml12_float_regex
@@ -169,6 +170,11 @@ class Dumper(yaml.SafeDumper):
             elif cur_state == JsonDumperState.MAPPING_VALUE:
                 self._json_state[cur_level] = JsonDumperState.MAPPING_KEY
 
+    def represent_int(self, data: int) -> Any:
+        # Override PyYAML to also write ints that are too large for str()
+        return self.represent_scalar(
+                'tag:yaml.org,2002:int', _int_to_yaml(data))
+
     def represent_ordereddict(self, data: Any) -> Any:
         # Override PyYAML to produce a plain dict.
         return self.represent_dict(data)
@@ -184,6 +190,7 @@ class Dumper(yaml.SafeDumper):
 # one (e.g. 1e5) must be quoted, also if YAML 1.1 sees a string in them.
 Dumper.add_implicit_resolver(
         'tag:yaml.org,2002:float', yaml12_float_regex, list('-+0123456789.'))
+Dumper.add_representer(int, Dumper.represent_int)
 Dumper.add_representer(OrderedDict, Dumper.represent_ordereddict)
 Dumper.add_representer(PosixPath, PathRepresenter())
 Dumper.add_representer(WindowsPath, PathRepresenter())
